@@ -16,7 +16,7 @@ import (
 var Shapes = []string{
 	"text", "textcrlf", "html", "cyrillic", "cjk", "utf8big", "dna", "numeric", "base64",
 	"elfx86", "pe", "elfarm64", "elfbogus", "pebogus", "machobogus", "wav", "bmp", "ppm", "runs", "zeros",
-	"skewed", "raredom", "ramp255", "ramp256", "smallalpha", "periodic", "random", "magicmix", "repeatblocks", "sorted", "utf8dirty", "longruns", "farmatch", "crlfcut", "constchunks", "randtext", "bigvocab", "fsdstress", "ffmix", "wordlist", "wordlist3", "staircase", "staircase2", "clusterq",
+	"skewed", "raredom", "ramp255", "ramp256", "smallalpha", "periodic", "random", "magicmix", "repeatblocks", "sorted", "utf8dirty", "longruns", "farmatch", "crlfcut", "constchunks", "randtext", "bigvocab", "fsdstress", "ffmix", "wordlist", "wordlist3", "staircase", "staircase2", "clusterq", "fibword", "thuemorse", "bigperiod",
 }
 
 var words = strings.Fields(`the of and to a in is that it was for on are as with his they at be this from have or by one had not but what all were
@@ -317,6 +317,42 @@ func Make(shape string, n int, seed int64) []byte {
 				b = append(b, '\n')
 			} else {
 				b = append(b, ' ')
+			}
+		}
+		b = b[:n]
+	case "fibword":
+		// Fibonacci word over two symbols: maximal number of long repeated substrings (worst case for suffix sorting merges)
+		x, y := []byte{byte('a' + r.Intn(3))}, []byte{byte('x'), byte('a' + r.Intn(3))}
+		for len(y) < n {
+			x, y = y, append(append([]byte{}, y...), x...)
+		}
+		b = y[:n]
+	case "thuemorse":
+		// Thue-Morse sequence (cube free, overlap free: many near-repeats of every length), two symbols
+		b = make([]byte, n)
+		lo, hi := byte('0'+r.Intn(5)), byte('A'+r.Intn(20))
+		for i := range b {
+			v, k := 0, i
+			for k > 0 {
+				v ^= k & 1
+				k >>= 1
+			}
+			if v == 0 {
+				b[i] = lo
+			} else {
+				b[i] = hi
+			}
+		}
+	case "bigperiod":
+		// a random period of a few thousand bytes repeated, with a single mutation per repetition (very long common prefixes)
+		per := 1000 + r.Intn(6000)
+		base := make([]byte, per)
+		r.Fill(base)
+		for len(b) < n {
+			k := len(b)
+			b = append(b, base...)
+			if k+per <= n+per {
+				b[k+r.Intn(per)] ^= byte(1 + r.Intn(255))
 			}
 		}
 		b = b[:n]
